@@ -565,7 +565,9 @@ def just(
         unparsed.ljust(width, fill_char) if ljust else unparsed.rjust(width, fill_char)
     )
 
-    assert crop or len(unparsed_output) == width
+    if not crop and len(unparsed_output) != width:
+        # The argument is longer than the requested width, and may not be cropped.
+        return SemPredEvalResult(False)
 
     if crop:
         unparsed_output = (
